@@ -3,7 +3,7 @@ from pyvc import engine as E, interp as I, vc, models  # noqa: F401
 
 TRUSTED_BASE = [
     'pyvc: AST symbolic interpreter of the supported Python subset (/verif/pyvc), not itself verified; guarded by '
-    'canary obligations, native replay of every counterexample and the CPython cross-check of the thorough tier',
+    'canary obligations, native replay of every counterexample, the native search each unit carries, seeded changes / behaviour-preserving edits on scratch copies (DESIGN.md 0.A, 0.B) and the cvc5 second opinion of the thorough tier',
     'z3 5.1 (unsat answers trusted; rlimit budgets, no wall-clock timeouts)',
     'library models of pyvc/models.py (struct, six, attrs, enum, datetime, builtins) - listed under assumptions when used',
     'CPython 3.12 executes closed (all-concrete) calls natively: get_param(), _get_variants(), attr.fields, enum tables',
